@@ -59,6 +59,17 @@ def families(rng, dtype):
         out.append(("jump-far", dict(r=float(rf)), (lambda x, r=rf: T(1.5) if x > r else T(-0.5)), rf - wf, rf + wf * T(0.7), True, False))
         tiny = T(10.0 ** rng.uniform(-12, -9))
         out.append(("tiny-positive", dict(t=float(tiny)), (lambda x, tiny=tiny: tiny * (T(1.0) + x * x)), T(-1.0), T(1.0), False, True))
+        # values that are finite while their pairwise products overflow ("whatever the scale"): own random stream, derived from the last draw
+        import random as _random
+        r2 = _random.Random(repr((float(tiny), np.dtype(T).name)))
+        lg = float(np.log10(float(np.finfo(T).max)))
+        for _k in range(2):
+            sh = T(10.0) ** T(r2.uniform(0.5 * lg - 3, 0.93 * lg)) * T(r2.choice([-1, 1]))
+            rr = T(r2.uniform(-0.8, 0.8))
+            lo_h, hi_h = rr - T(r2.uniform(0.3, 1.5)), rr + T(r2.uniform(0.3, 1.5))
+            if r2.random() < 0.3:
+                lo_h, hi_h = hi_h, lo_h
+            out.append(("huge-values", dict(s=float(sh), r=float(rr)), (lambda x, s=sh, r=rr: s * ((x - r) * (T(1.0) + (x - r) * (x - r)))), lo_h, hi_h, True, True))
     return out
 
 
